@@ -73,7 +73,9 @@ EXPORT alpaqa_control_problem_register_t c20_ocp_register(alpaqa_register_arg_t 
     alpaqa_control_problem_functions_t *F = &in->F;
     F->N = C20_OCP_N; F->nx = NX; F->nu = NU; F->nh = in->P.n; F->nh_N = in->P.n; F->nc = in->P.m; F->nc_N = in->P.m;
     F->get_U = o_get_U; F->get_x_init = o_x_init; F->eval_f = o_f; F->eval_jac_f = o_jac_f;
-    F->eval_grad_f_prod = o_grad_f_prod; F->eval_h = o_h; F->eval_h_N = o_h_N; F->eval_l = o_l; F->eval_l_N = o_l_N;
+    F->eval_grad_f_prod = o_grad_f_prod; F->eval_l = o_l; F->eval_l_N = o_l_N;
+    if (!(in->P.flags & C20O_FLAG_NO_H)) F->eval_h = o_h;
+    if (!(in->P.flags & C20O_FLAG_NO_H_N)) F->eval_h_N = o_h_N;
     F->eval_qr = o_qr; F->eval_q_N = o_q_N; F->eval_add_Q = o_add_Q; F->eval_add_R_masked = o_add_R;
     F->eval_add_S_masked = o_add_S;
 #define OPT(bit, member, fn) if ((k >> (bit)) & 1) F->member = fn
